@@ -163,6 +163,12 @@ func realMain() int {
 			return nil
 		})
 		os.RemoveAll(d.scratch)
+		// relocated tree copies of this run's workers (other file system)
+		if ms, _ := filepath.Glob(filepath.Join(os.TempDir(), "verif-reloc", fmt.Sprintf("verif-%d_*", os.Getpid()))); len(ms) > 0 {
+			for _, m := range ms {
+				os.RemoveAll(m)
+			}
+		}
 	}()
 	d.env = append(os.Environ(),
 		"GOFLAGS=-mod=mod", "GOPROXY=off", "GOSUMDB=off", "GOTOOLCHAIN=local", "GONOSUMDB=*", "GONOSUMCHECK=1",
